@@ -80,6 +80,9 @@ where
                     if !market.open {
                         break;
                     }
+                    // release the market before sleeping, otherwise every worker stalls on its
+                    // next broker call for the whole sleep period
+                    drop(market);
                     sleep(Duration::from_secs(1));
                 })
                 .unwrap();
